@@ -327,6 +327,10 @@ Theorem C02_validation_sound :
 Proof. exact validation_sound. Qed.
 Print Assumptions C02_validation_sound.
 
+(* Theorems 27-29 (the analytic numbers over R: C02_erf_truncation_constant_R, C02_gauss_whole_radiance_R,
+   C02_stark_normalisation_constant_R) are in Properties/C02_R.v: they depend on Coquelicot and Interval, and keeping them
+   apart lets the independent checker (coqchk, thorough tier) re-check this file in minutes. *)
+
 (* non-vacuity: a grid, a line and weights satisfying the hypotheses used above *)
 Definition witness_grid : grid := {| gmin := 650; gmax := 660; gbins := 20; gdelta := 1 # 2 |}.
 Example C02_nonvacuous :
